@@ -83,6 +83,8 @@ type selfRow struct {
 	Exit       int      `json:"exit"`
 	Violations []string `json:"violations,omitempty"`
 	Undecided  int      `json:"undecided"`
+	// Replayed: VIOLATION lines whose counterexample failed on the real code (no no-failing-input-found suffix)
+	Replayed   int      `json:"replayed,omitempty"`
 	OK         bool     `json:"ok"`
 	Note       string   `json:"note,omitempty"`
 }
